@@ -252,7 +252,9 @@ class C40(Prop):
         return ''.join(rng.choice(ALPHA) for _ in range(n))
 
     def rand_flows(self, rng):
-        return rng.choice([[1], [1], [1], [2], [1, 2], [], [1, 3], [2, 3], [1, 2, 3]])
+        # multi-digit flow numbers too: a filter on flow 1 must not select flows 10, 12, 21 ...
+        return rng.choice([[1], [1], [1], [2], [1, 2], [], [1, 3], [2, 3], [1, 2, 3],
+                           [10], [12], [21], [3, 21], [2, 10], [11, 12], [1, 10], [2, 100]])
 
     def rand_outputs(self, rng):
         ks = rng.sample(OUTPUT_NAMES, rng.randint(0, 4))
@@ -343,7 +345,7 @@ class C40(Prop):
             else:
                 sel = rng.choice(OUTPUT_NAMES + ['the quick brown', 'msg x', 'finished', 'Finished'])
         f = rng.random()
-        flow = None if f < 0.55 else (rng.choice(flows) if (f < 0.8 and flows) else rng.choice([1, 1, 2, 3, 4]))
+        flow = None if f < 0.55 else (rng.choice(flows) if (f < 0.8 and flows) else rng.choice([1, 1, 2, 3, 4, 10, 12, 21]))
         return {'task': task, 'cycle': cycle, 'selector': sel, 'mode': mode, 'flow': flow}
 
     def gen(self, tier, rng):
